@@ -617,6 +617,13 @@ def _gen_grid(toks):
     g = Grid(version=grid_meta.pop('ver'),
              metadata=grid_meta,
              columns=list(col_meta.items()))
+    ncols = len(col_meta)
+    for row in rows:
+        # Cells beyond the last column are dropped below, but they are part
+        # of the document: a pre-3.0 grid cannot hold a 3.0-only value there
+        # either.
+        for val in row[ncols:]:
+            g._detect_or_validate(val)
     g.extend(map(lambda row: dict(zip(col_meta.keys(), row)), rows))
     return g
 
